@@ -69,8 +69,9 @@ def scenarios(rng, tier):
               "C3,-5,0,0,0,-500,0", "C2,5,10,1,-2,0,0", "C3,5,4294968,0,0,0,0", "C2,4294968,1,0,0,0,0"]:
         sc.append([c, "Td"])
     # solver
-    for n in (0, 1, 2, 3, 4):
+    for n in (0, 1, 2, 3, 4, 5, 6, 8):
         sc.append([f"S{n}"])
+        sc.append([f"S{n}", f"S{n}", "S3"])
     return sc
 
 
